@@ -162,6 +162,20 @@ func (s *Server) logf(format string, a ...any) uint64 {
 	return 0
 }
 
+// logq logs a line that no scheduling decision depends on (pool housekeeping,
+// connection set-up, metadata queries of the client's background goroutines):
+// it gets its place in the event sequence but stays out of the trace hash,
+// because two client goroutines woken by timers at the same simulated instant
+// write such lines in an order nobody controls.
+func (s *Server) logq(format string, a ...any) uint64 {
+	if q, ok := s.Hook.(interface {
+		LogfQuiet(format string, a ...any) uint64
+	}); ok {
+		return q.LogfQuiet(format, a...)
+	}
+	return s.logf(format, a...)
+}
+
 func (s *Server) journal(e JEntry) {
 	s.Journal = append(s.Journal, e)
 }
